@@ -331,7 +331,6 @@ pub fn hwb_suite<C: HwbLike, G: Gen>(g: &mut G, part: u8) {
     }
     if part == 2 {
         g.assume(c.is_within_bounds());
-        cov!(g, c.w() > C::zero() && c.b() > C::zero());
         let k = c.clamp();
         ob!("B2.in_bounds_unchanged", k.w() == c.w() && k.b() == c.b());
         return;
